@@ -517,8 +517,12 @@ package backend
 //@   nosafety
 //@   requires w != nil && w.metricCli != nil
 //@   modifies inferred:(*WatcherHub).AddWatcher$1
+// C05: "a stream never continues past an event it did not deliver": a subscriber that was skipped
+// must be gone before the next batch is taken, so its removal cannot be left to a goroutine that
+// runs whenever the scheduler gets to it
 //@ func (*WatcherHub).DeleteWatcher(sub, lock)
 //@   props C19 C05
+//@   not_spawned a skipped subscriber is removed before the hub takes the next batch
 //@   nosafety
 //@   requires w != nil && w.metricCli != nil
 //@   requires [caller-holds-the-lock-or-asks-for-it] lock || holds_w(w)
